@@ -2,6 +2,7 @@ mod codec;
 mod container;
 mod deflate;
 mod gen;
+mod hist;
 mod iox;
 mod util;
 
@@ -27,6 +28,8 @@ fn main() {
         "deflate-record" => deflate::record(&args),
         "deflate-trace-generated" => deflate::trace_generated(&args),
         "deflate-replay-hex" => deflate::replay_hex(&args),
+        "deflate-info" => deflate::info(&args),
+        "deflate-pack" => deflate::pack(&args),
         "deflate-short" => deflate::exhaustive_short(&args),
         "container-replay" => container::replay(&args),
         "container-record" => container::record(&args),
@@ -36,6 +39,7 @@ fn main() {
         "zstd-record" => iox::zstd_record(&args),
         "abi-record" => iox::abi_record(&args),
         "conc-record" => iox::conc_record(&args),
+        "hist-record" => hist::record(&args),
         other => {
             eprintln!("unknown subcommand {}", other);
             2
